@@ -21,6 +21,7 @@ Atoms(F) == {f[1] : f \in F}
 Final ==
    IF T.exc # "none" THEN "raises:" \o T.exc
    ELSE IF ~ValidProgram THEN "program_not_valid"
+   ELSE IF ToSet(T.reads) # ToSet(T.reads_nometa) \/ ToSet(T.target) # ToSet(T.target_nometa) THEN "metadata_changes_table_lineage"
    ELSE IF Obs = Flow THEN "ok"
    ELSE IF \E f \in Obs : f[1].k = "one_node" THEN "path_without_hop"
    ELSE IF {f[2] : f \in Obs} # {f[2] : f \in Flow} THEN "target_columns_named"
@@ -31,7 +32,7 @@ Final ==
 TNext == /\ verdict = "run"
          /\ IF l <= Steps
             THEN /\ Next /\ l' = l + 1 /\ UNCHANGED verdict
-                 /\ (phase' = "done" => (kind' = P.kind /\ collist' = [i \in DOMAIN P.collist |-> P.collist[i]] /\ known' = ToSet(P.known)))
+                 /\ (phase' = "done" => (kind' = P.kind /\ collist' = [i \in DOMAIN P.collist |-> P.collist[i]] /\ known' = ToSet(P.known) /\ tk' = P.tk))
                  /\ kind' \in {None, P.kind}
                  /\ Len(rels') <= Len(P.rels) /\ \A i \in DOMAIN rels' : rels'[i] = Rel(P.rels[i])
                  /\ Len(items') <= Len(P.items) /\ \A i \in DOMAIN items' : items'[i] = Item(P.items[i])
